@@ -536,10 +536,10 @@ func (fr *Frame) valueInstr(st *State, v ssa.Value) {
 		if at, ok := types.Unalias(et).Underlying().(*types.Array); ok {
 			// array storage: elements zeroed
 			for i := int64(0); i < at.Len() && i < 16; i++ {
-				vc.storeT(st, vc.elemAddr(r, IntLit(i)), at.Elem(), vc.zeroOf(at.Elem()))
+				vc.assumeZero(st, vc.elemAddr(r, IntLit(i)), at.Elem())
 			}
 		} else {
-			vc.storeT(st, r, et, vc.zeroOf(et))
+			vc.assumeZero(st, r, et)
 		}
 	case *ssa.BinOp:
 		fr.define(x, fr.binop(st, x))
@@ -639,6 +639,20 @@ func (fr *Frame) valueInstr(st *State, v ssa.Value) {
 	}
 }
 
+// assumeZero: a freshly allocated location holds the zero value. Nothing can have been stored at
+// a fresh address, so this is stated about the current memory version instead of storing
+// (keeps the number of memory versions small).
+func (vc *VC) assumeZero(st *State, p Term, t types.Type) {
+	var leaves []leafLoc
+	vc.leafLocs(t, func(e Term) Term { return e }, &leaves)
+	for _, lf := range leaves {
+		a := lf.addr(p)
+		m := vc.getMem(st, lf.key, "(Array Ref "+lf.sort+")")
+		vc.noteAddr(lf.key, a)
+		vc.sc.Def(Eq(sx("select", m, a), vc.zeroOf(lf.t)))
+	}
+}
+
 func (fr *Frame) bindResults(st *State, call *ssa.Call, res []Term) {
 	vc := fr.vc
 	sig := call.Common().Signature()
@@ -711,7 +725,7 @@ func (fr *Frame) unop(st *State, x *ssa.UnOp) {
 			entryVal := sx("select", vc.memInit(vc.memKey(et), "(Array Ref "+sort+")"), a)
 			fr.vc.prov[name] = entryVal
 		}
-		vc.older(st, name, sort)
+		vc.wf(st, name, et)
 	case token.NOT:
 		fr.define(x, Not(fr.val(x.X)))
 	case token.SUB:
